@@ -94,6 +94,9 @@ def show(e, minp=1):
         s = '"' + ''.join(p if isinstance(p, str) else '${' + show(p, 1) + '}' for p in e[1]) + '"'
     elif k == 'call':
         s = show(e[1], 14) + '(' + ', '.join(show(x, 1) for x in e[2]) + ')'
+    elif k == 'lam':
+        s = '|' + ', '.join(e[1]) + '| ' + show(e[2], 1)
+        return '(' + s + ')' if minp > 1 else s
     elif k == 'par':          # explicit parentheses (no tree node)
         s = '(' + show(e[1], 1) + ')'
         return s
@@ -388,6 +391,104 @@ class Gen:
         return ('interp', parts)
 
 
+
+class FnGen(Gen):
+    """programs of the function fragment: fn declarations (global / local), lambdas, calls, return, recursion,
+    closures over enclosing locals (read, written, escaping), on top of the statement generator"""
+    FN_NAMES = ['f', 'g', 'h', 'p', 'q2', 'mk']
+
+    def __init__(self, rng):
+        Gen.__init__(self, rng)
+        self.infn = 0
+
+    def fnvars(self, vs):
+        return [(v, k) for v, k in vs.items() if isinstance(k, tuple)]
+
+    def call(self, vs, d, want=None):
+        fs = [(v, k) for v, k in self.fnvars(vs) if want in (None, 'any') or k[2] == want]
+        if not fs:
+            return None
+        v, k = self.r.choice(fs)
+        n = k[1] if self.r.random() < 0.93 else self.r.randint(0, 3)      # sometimes the wrong arity
+        return ('call', ('var', v), [self.expr(vs, d - 1, 'num') for _ in range(n)])
+
+    def lam(self, vs, d):
+        ps = self.r.sample(['u', 'w', 't'], self.r.randint(0, 2))
+        inner = dict((k, v) for k, v in vs.items())
+        inner.update({p_: 'num' for p_ in ps})
+        body = self.expr(inner, d - 1, 'num')
+        return ('lam', ps, body), ('fn', len(ps), 'num')
+
+    def expr(self, vs, d, kind=None, restricted=False):
+        if not isinstance(vs, dict):
+            vs = {v: 'any' for v in vs}
+        r = self.r
+        if d > 0 and not restricted and r.random() < 0.18:
+            c = self.call(vs, d, kind)
+            if c:
+                self.shapes.add(('fn', 'call', kind))
+                return c
+        if d > 1 and kind in (None, 'any') and not restricted and r.random() < 0.1:
+            l, _ = self.lam(vs, d)
+            self.shapes.add(('fn', 'lambda-value'))
+            return ('call', l, [self.expr(vs, 1, 'num') for _ in range(len(l[1]))]) if r.random() < 0.5 else l
+        plain = {v: k for v, k in vs.items() if not isinstance(k, tuple)}
+        return Gen.expr(self, plain, d, kind, restricted)
+
+    def fn_decl(self, sc, d, outer):
+        r = self.r
+        cur = sc['locals'][-1] if sc['depth'] > 0 else sc['globals']
+        cand = [n for n in self.FN_NAMES if n not in cur]
+        if not cand:
+            return 'print(0);'
+        name = r.choice(cand)
+        ps = r.sample(['u', 'w', 't'], r.randint(0, 2))
+        ret = r.choice(['num', 'num', 'num', 'str', 'any'])
+        cur[name] = ('fn', len(ps), ret)          # in scope inside its own body: recursion
+        saved = (sc['depth'], sc['loop'])
+        sc['locals'].append({p_: 'num' for p_ in ps})
+        sc['depth'], sc['loop'] = 1, 0
+        self.infn += 1
+        body = [self.stmt(sc, d - 1, True, 'fn') for _ in range(r.randint(0, 3))]
+        vs = self.vars(sc)
+        if r.random() < 0.85:
+            if r.random() < 0.15 and d > 1:
+                l, _ = self.lam(vs, 3)
+                body.append('return ' + show(l) + ';')
+                cur[name] = ('fn', len(ps), 'any')
+            else:
+                body.append('return ' + show(self.expr(vs, 3, ret)) + ';')
+        self.infn -= 1
+        sc['locals'].pop()
+        sc['depth'], sc['loop'] = saved
+        self.shapes.add((outer, 'fn', 'local' if sc['depth'] > 0 else 'global', len(ps)))
+        return 'fn %s(%s) { %s }' % (name, ', '.join(ps), ' '.join(body))
+
+    def stmt(self, sc, d, loops=False, outer='top'):
+        r = self.r
+        x = r.random()
+        if d > 0 and x < 0.14:
+            return self.fn_decl(sc, d, outer)
+        if self.infn and x < 0.22:
+            self.shapes.add((outer, 'return'))
+            vs = self.vars(sc)
+            return 'return;' if r.random() < 0.2 else 'return ' + show(self.expr(vs, 2)) + ';'
+        if d > 0 and x < 0.30:
+            vs = self.vars(sc)
+            cur = sc['locals'][-1] if sc['depth'] > 0 else sc['globals']
+            cand = [n for n in ['la', 'lb', 'lc'] if n not in cur]
+            if cand:
+                l, k = self.lam({v: kk for v, kk in vs.items() if v != cand[0]}, 3)
+                cur[cand[0]] = k
+                self.shapes.add((outer, 'var-lambda'))
+                return 'var %s = %s;' % (cand[0], show(l))
+        return Gen.stmt(self, sc, d, loops, outer)
+
+    def program(self, loops=False):
+        sc = {'globals': {}, 'locals': [{}], 'depth': 0, 'loop': 0}
+        return [self.stmt(sc, 3, loops) for _ in range(self.r.randint(2, 6))]
+
+
 # ------------------------------------------------------------------------------------------------------------------
 # fixed probes: evaluation order, aliasing, identity, numeric edges, messages, scoping, control transfer
 PROBES = [
@@ -450,6 +551,9 @@ PROBES = [
     '{ var i = 0; while i < 2 { i += 1; var a = "A"; break; } var q = "Q"; print(q); q = "R"; print(q); print(i); }',
     '{ var i = 0; while i < 4 { i += 1; var a = i; { var b = a * 2; if b == 4 { continue; } print(b); } } var z = "z"; print(z); }',
 ]
+
+# the function fragment (FnSem / FnCompile / FnVM): fn, lambdas, calls, return, recursion, closures
+FN_PROBES = ['fn f(a, b) { print(a); return a * b; } print(f(2, 3) + f(4, 5));', 'fn f() { return; } print(f()); fn g() { } print(g()); print(f); print(|x| x + 1);', 'var add = |a, b| a + b; print(add(1, 2)); print((|| 7)()); print((|x| { return x * 2; })(4));', 'fn fact(n) { if n <= 1 { return 1; } return n * fact(n - 1); } print(fact(10));', 'fn mk() { var c = 0; return || { c += 1; return c; }; } var a = mk(); var b = mk(); print(a()); print(a()); print(b());', 'fn f(x) { return x; } print(f(1, 2));', 'fn f(x) { return x; } print(f());', 'fn r(n) { return r(n + 1); } r(0);', '{ var x = 1; var g = || x; x = 2; print(g()); } { var y = 5; fn h() { return y; } print(h()); }', 'fn outer() { var a = 1; fn mid() { fn inner() { a += 1; return a; } return inner; } return mid(); } var i = outer(); print(i()); print(i());', 'var fs = []; var k = 0; while k < 3 { k += 1; var j = k * 10; fs = [|| j, fs]; } print(fs[0]()); print(fs[1][0]());', 'fn f() { var i = 0; while i < 3 { i += 1; var a = i; var g = || a; if i == 2 { break; } print(g()); } return i; } print(f());', '{ fn fib(n) { if n < 2 { return n; } return fib(n - 1) + fib(n - 2); } print(fib(10)); }', 'fn f(a) { var b = a; { var c = b; var g = || c + a; b = g(); } return b; } print(f(3));', 'fn f() { return |x| |y| x + y; } print(f()(1)(2)); print(f == f); print(f() == f());', 'fn f(a, a2) { var s = "${a}-${a2}"; return s; } print(f(1, "z")); print(f);', 'fn counter() { var n = 0; fn inc() { n += 1; return n; } fn get() { return n; } return (inc, get); } var c = counter(); c[0](); c[0](); print(c[1]());', 'var x = 1; fn g() { return x; } x = 2; print(g()); nil(); ', 'fn f() { var a = 1; var b = 2; var g = || b; var h = || a + b; return h() + g(); } print(f());']
 
 # beyond the fragment: compared with the full reference interpreter (SpecScripts.run_case)
 BEYOND_FIXED = [
@@ -681,7 +785,8 @@ PRE = "Open Scope string_scope.\n"
 class Stats:
     def __init__(self):
         self.n = dict(programs=0, bytes_equal=0, eval_equal=0, vm_equal=0, compile_errors_agreed=0, decompiled=0,
-                      spec_compared=0, spec_equal=0, spec_fuel=0, outside_fragment=0, runs_ok=0, runs_err=0)
+                      spec_compared=0, spec_equal=0, spec_fuel=0, outside_fragment=0, runs_ok=0, runs_err=0,
+                      fn_programs=0, fn_trees_equal=0, fn_functions=0, fn_eval_equal=0, fn_vm_equal=0, fn_fuel=0)
         self.shapes = set()
         self.samples = []
 
@@ -819,6 +924,83 @@ def check_beyond(ctx, st, srcs, tag):
         else:
             ctx.violation("printed lines / outcome / error differ from the reference interpreter (SpecRun)", input=s,
                           expected=sc, actual=ic)
+
+
+
+def real_tree(rec):
+    """the function tree of the harness `compile` answer, in the rendering of FnVM.show_fn"""
+    if rec.crashed:
+        return "CRASH"
+    r = rec.tagged("R")
+    if not r or r[-1][0] != "ok":
+        return "ERR:" + (rec.messages[0] if rec.messages else "")
+    fs = {int(f[0]): f for f in rec.tagged("F")}
+    cs = {int(c[0]): c[1:] for c in rec.tagged("C")}
+    out = []
+    for i in sorted(fs):
+        f = fs[i]
+        ks = [{"s": "S", "n": "N", "f": "f"}.get(c[0], "?") + c[1:] for c in cs.get(i, []) if c]
+        out.append("F%d %s %s %s %s K %s" % (i, f[1], f[2], f[3], "" if f[4] == "-" else f[4], ",".join(ks)))
+    return ";".join(out)
+
+
+def norm_lambda(s):
+    return re.sub(r"lambda-\d+", "lambda", s)
+
+
+def check_functions(ctx, st, progs, tag):
+    """programs of the function fragment: (a) every function's bytes + constants (nested functions as constants) ==
+    the real compiler's, FnVM == real VM; (c) FnSem (reference evaluator with cells) == real VM"""
+    if not progs:
+        return
+    binary = ctx.harness("release")
+    lines = []
+    for s, _ in progs:
+        lines.append("compile " + hx(s))
+        lines.append("run - " + hx(s))
+    recs = yvlib.run_harness(binary, lines, case_timeout_ms=8000)
+    vals = yvlib.coq_eval(["YV:FnVM"], ['fn_case 3000 (300*300) "%s"' % hx(s) for s, _ in progs],
+                          shard_size=max(4, (len(progs) + 4 * yvlib.NPROC - 1) // (4 * yvlib.NPROC)), tag="C05fn" + tag, preamble=PRE)
+    for i, (src, meta) in enumerate(progs):
+        st.n["programs"] += 1
+        st.n["fn_programs"] += 1
+        v = vals[i]
+        rt = real_tree(recs[2 * i])
+        run = recs[2 * i + 1]
+        if v is None:
+            ctx.corr_broken.append("model evaluation failed (coq_eval) on: " + src[:300])
+            continue
+        if rt.startswith("ERR:"):
+            if v.startswith("F|"):
+                ctx.corr_broken.append("real compiler rejects (%s) what the function model compiles: %s" % (rt[:120], src[:300]))
+            else:
+                st.n["compile_errors_agreed"] += 1
+            continue
+        if not v.startswith("F|"):
+            ctx.corr_broken.append("function model rejects (%s) a program the real compiler accepts: %s" % (v[:80], src[:300]))
+            continue
+        mtree, meval, mvm = v[2:].split("#")
+        if mtree != rt:
+            ctx.corr_broken.append("function tree (bytes / constants / arity / upvalue counts) differs: %s | model %s | real %s" % (src[:300], mtree[:500], rt[:500]))
+        else:
+            st.n["fn_trees_equal"] += 1
+            st.n["fn_functions"] += rt.count(";") + 1
+            # opcodes GetUpvalue / SetUpvalue / CloseUpvalue present?  (coverage only; hex scan is approximate)
+        if "FUEL" in meval or "FUEL" in mvm:
+            st.n["fn_fuel"] += 1
+            continue
+        ic = norm_lambda(impl_canon(run))
+        ec, vc = model_canon(meval), model_canon(mvm)
+        if ic != ec:
+            ctx.violation("printed lines / outcome / error differ from the reference evaluator with cells (FnSem)", input=src,
+                          expected=ec, actual=ic, model_machine=vc, meta=str(meta))
+        else:
+            st.n["fn_eval_equal"] += 1
+        if ic != vc:
+            if ic == ec:
+                ctx.corr_broken.append("FnVM on the model code != real VM: %s | model %s | real %s" % (src[:300], vc[:300], ic[:300]))
+        else:
+            st.n["fn_vm_equal"] += 1
 
 
 # kinds of operands
@@ -960,6 +1142,13 @@ def run(ctx):
             val = yvlib.coq_eval(["YV:C05Run"], ['c05_case %s %s "%s"' % (FE, FV, hx(src))], tag="C05shrink", preamble=PRE)[0]
             v.update({"input": src, "actual": impl_canon(rec), "expected": model_canon(val[2:].split("#")[1])})
     ctx.violations[:] = ctx.violations[:5]
+    # 2b. the function fragment
+    fg = FnGen(rng)
+    fg.shapes = st.shapes
+    n_fn = max(40, int((400 if quick else 5000) * SCALE))
+    fprogs = [(p_, ('fnprobe',)) for p_ in FN_PROBES] + [(' '.join(fg.program(i % 2 == 1)), ('fn', i)) for i in range(n_fn)]
+    check_functions(ctx, st, fprogs, 'f')
+    ctx.violations[:] = ctx.violations[:5]
     # 3. grouping: decompile the real bytes
     n_dec = max(50, int((500 if quick else 6000) * SCALE))
     cases = []
@@ -999,6 +1188,7 @@ def run(ctx):
         "kind_triples": len([s for s in st.shapes if s[0] in ("kind", "un")]),
         "statement_nestings": len([s for s in st.shapes if s[0] in ("top", "block", "if", "else", "elseif", "while")]),
         "try_in_loop_shapes": len([s for s in st.shapes if s[0] == "try"]),
+        "function_shapes": len([s for s in st.shapes if "fn" in s[:2] or "return" in s[:2] or "var-lambda" in s[:2]]),
         "samples": [progs[len(PROBES)][0], " ".join(structured[0])[:300], " ".join(structured[n_rand])[:300], bey[-1][:300],
                     show(cases[0][0])[:200]],
         "traces_validated_against_impl": st.n["bytes_equal"],
